@@ -75,6 +75,7 @@ func New(
 			return ctx.SendStatus(http.StatusOK)
 		})
 	}
+	app.Use(middlewares.Recover(l, mm))
 	app.Use(middlewares.DecodeURL(l, mm))
 	if server.debug {
 		app.Use(middlewares.DebugLogger())
